@@ -164,3 +164,53 @@ fn c20_chain_drain_v3_l6() {
     kani::cover!(s1 == s2 && s1 > 0 && s2 < LEN && t == 0, "empty middle volume drained from the start");
     std::mem::forget(chain);
 }
+
+/// two passes (added after seeded change C20-1): read the whole chain once, seek back to an arbitrary position, read to the
+/// end again - the second pass must deliver exactly the rest of the concatenation (volume readers that were already read to
+/// their end must be rewound when entered again, also when entered by skipping an empty volume).
+#[kani::proof]
+#[kani::unwind(9)]
+fn c20_chain_two_pass_v3_l6() {
+    const LEN: usize = 6;
+    let data: [u8; LEN] = kani::any();
+    let s1: usize = kani::any();
+    let s2: usize = kani::any();
+    kani::assume(s1 <= s2 && s2 <= LEN);
+    let vols = vec![Cursor::new(&data[..s1]), Cursor::new(&data[s1..s2]), Cursor::new(&data[s2..])];
+    let mut chain = SeekableChain::new(vols);
+    let mut total = 0usize;
+    let mut k = 0;
+    while k < 7 {
+        let mut buf = [0u8; 4];
+        let r = chain.read(&mut buf).unwrap();
+        if r == 0 {
+            break;
+        }
+        total += r;
+        k += 1;
+    }
+    assert_eq!(total, LEN);
+    let t: u64 = kani::any();
+    kani::assume(t <= LEN as u64);
+    assert_eq!(chain.seek(SeekFrom::Start(t)).unwrap(), t);
+    let w: usize = kani::any(); // watched offset
+    kani::assume(w < LEN);
+    let mut total2 = 0usize;
+    k = 0;
+    while k < 7 {
+        let mut buf = [0u8; 4];
+        let r = chain.read(&mut buf).unwrap();
+        if r == 0 {
+            break;
+        }
+        let abs = t as usize + total2;
+        if w >= abs && w < abs + r {
+            assert_eq!(buf[w - abs], data[w]);
+        }
+        total2 += r;
+        k += 1;
+    }
+    assert_eq!(total2, LEN - t as usize);
+    kani::cover!(s1 == s2 && s1 > 0 && s2 < LEN && (t as usize) < s1, "second pass across an empty middle volume");
+    std::mem::forget(chain);
+}
